@@ -2,7 +2,7 @@
    only; proofs in IRCP.OperP, IRCP.ModesFrame, IRCP.OperGlobal and IRCP.InvStep (delivery of
    pending KILLs). *)
 From IRC Require Import Str Wild Glob Parse Reply State Handlers Step.
-From IRCP Require Import MsgP InvDefs InvStep OperP ModesFrame OperGlobal ModesGlobal KillP DieP.
+From IRCP Require Import MsgP InvDefs InvStep OperP ModesFrame OperGlobal ModesGlobal KillP DieP MsgGlobal.
 From stdpp Require Import gmap.
 
 (* THE global statement.  For every step of every connection i from a world satisfying the
@@ -183,6 +183,18 @@ Proof. exact (stats_unprivileged cfg i). Qed.
 
 End C11.
 
+(* WALLOPS REQUIRES OPERATOR STATUS, as a whole step of the server after any history: a registered connection's WALLOPS line leaves
+   the state unchanged and closes nobody; from a (local) operator everything sent in the step is one copy to each user with +w;
+   from anybody else it is the one ERR_NOPRIVILEGES to the sender - and nothing reaches anybody else *)
+Theorem C11_wallops_step : forall cfg verify w i l msg text c w' o cl, Inv w -> step cfg verify w i (EvLine l) = Ok (w', o, cl) ->
+  conns w !! i = Some c -> c_auth c = true -> tokenize l = inl msg -> command_of_message msg = inl (WALLOPS text) ->
+  sh w' = sh w /\ cl = [] /\
+  exists nick u, c_nick c = Some nick /\ users (sh w) !! nick = Some u /\
+    if is_local_oper (u_modes u)
+    then Forall2 (delivered (sh w) (to_string_with_source msg (c_source c))) (elements (wallops (sh w))) o
+    else o = [(i, srv cfg (err_noprivileges (client_name c)))].
+Proof. exact wallops_step. Qed.
+
 Print Assumptions C11_operator_only_from_oper.
 Print Assumptions C11_no_other_command_confers.
 Print Assumptions C11_modes_follow_commands.
@@ -198,5 +210,6 @@ Print Assumptions C11_kill_delivery.
 Print Assumptions C11_die.
 Print Assumptions C11_squit.
 Print Assumptions C11_wallops.
+Print Assumptions C11_wallops_step.
 Print Assumptions C11_wallops_audience.
 Print Assumptions C11_stats.
